@@ -13,6 +13,8 @@
 import PdshVerif.Exec.Lemmas
 import PdshVerif.Exec.EndToEnd
 import PdshVerif.Exec.Ssh
+import PdshVerif.Opt.RcmdBridge
+import PdshVerif.Props.C18
 import PdshVerif.Opt.RcmdLemmas
 
 namespace PdshVerif.C09
@@ -604,24 +606,98 @@ theorem rsh_end_to_end (cfg : Cfg) (words : List Word) (targets : List Str) (ls 
   rw [hg]
   exact (wire_request_exact port cfg.luser _ (joinCmd argv) hlu hru (joinCmd_nul_free argv hargv)).1
 
+/-! ## from the command line: option precedence (C18's table), target assembly and exclusion (C10, C02) -/
+
+/-- LAST -R WINS, -R OVER PDSH_RCMD_TYPE (corollary of C18.precedence, which is proved over the option table
+    generated from opt.c): in every accepted run the default transport of the C09 model, fed with the
+    last -R, the variable and the loaded modules, is the `rcmd_name` opt.c ends up with -/
+theorem last_R_wins_R_over_env {fx : Opt.Fixes} {d : Opt.Defaults} {p : Opt.Pers} {env : Opt.Env}
+    {argv : List Str} {c : Opt.Cfg} (h : Opt.effective fx d p env argv = .ok c) :
+    defaultName (cfgOfSettings d p env argv) = c.rcmdName ∧
+    c.rcmdName = (Opt.lastArg 'R' (Opt.getopt (Opt.fullString d p) argv).1 <|>
+                  Opt.getenv env "PDSH_RCMD_TYPE" <|> Opt.defaultRcmd d) := by
+  obtain ⟨_, _, _, _, a5, _, _⟩ := C18.precedence h
+  refine ⟨?_, a5⟩
+  rw [a5]
+  unfold defaultName cfgOfSettings Opt.defaultRcmd
+  have hfun : (fun x => d.rcmdModules.contains x) = (fun x => decide (x ∈ d.rcmdModules)) := by
+    funext x; simp
+  cases Opt.lastArg 'R' (Opt.getopt (Opt.fullString d p) argv).1 <;>
+    cases Opt.getenv env "PDSH_RCMD_TYPE" <;> simp [hfun]
+
+/-- LAST -l WINS (same source): the user the C09 model falls back to is opt.c's `ruser` -/
+theorem last_l_wins {fx : Opt.Fixes} {d : Opt.Defaults} {p : Opt.Pers} {env : Opt.Env}
+    {argv : List Str} {c : Opt.Cfg} (h : Opt.effective fx d p env argv = .ok c) :
+    defaultUser (cfgOfSettings d p env argv) = c.ruser := by
+  obtain ⟨_, _, _, a4, _, _, _⟩ := C18.precedence h
+  rw [a4]
+  unfold defaultUser cfgOfSettings Opt.pick
+  cases Opt.lastArg 'l' (Opt.getopt (Opt.fullString d p) argv).1 <;> simp
+
+/-- CONTACTED AS SPECIFIED.  `items`: the comma words of the command line by meaning, in order --
+    target words `[type:][user@]word` and C02's exclusion / filter words anywhere among them.  Inside
+    C02's domain (repairs D1, D17, D19; one-bracket target words ...) and when every annotation splits
+    off as written (`hsplit`, decidable per word):
+     * get_host_rcmd_type hands hostlist exactly the unannotated word C02's model processes,
+     * pdsh goes on with `T` = targets minus exclusions, filtered (C02.exclusion_correct), and
+     * in every run that takes place, for EVERY host of that final list the transport is given the
+       type and user of the first annotated word whose hosts contain it (else the defaults chain), the
+       rank = its position in `T` -- i.e. AFTER -x removed hosts -- and the command words joined by blanks. -/
+theorem contacted_as_specified (xc : Hostlist.Cfg) (hD1 : xc.fixDeleteAll = true) (hD17 : xc.fixIterSuffix = true)
+    (hD19 : xc.fixRemoveDepth = true) (xenv : Opt.Exclude.Env) (items : List Item)
+    (hd : Opt.Exclude.Domain xc xenv (items.map Item.cw))
+    (hsplit : ∀ a ∈ awords items, parse a.text = some ⟨a.rtype, a.user, Hostlist.Spec.renderWord a.w⟩)
+    (cfg : Cfg) (argv : List Str) :
+    let T := Opt.Exclude.specWords xenv (items.map Item.cw)
+    (∀ a ∈ awords items, splitWord a.text = .ok a.rtype a.user (Opt.Exclude.CW.text (.tgt a.w))) ∧
+    Opt.Exclude.cliWords xc xenv ((items.map Item.cw).map Opt.Exclude.CW.text) = .ok T ∧
+    ∀ ls, runRe cfg ((awords items).map AWord.toWord) T = .lines ls →
+      ls.length = T.length ∧
+      ∀ (i : Nat) (hi : i < T.length), ∃ hi' : i < ls.length,
+        ls[i] = ⟨(hostInfo cfg ((awords items).map AWord.toWord) T[i]).1, T[i],
+                 (hostInfo cfg ((awords items).map AWord.toWord) T[i]).2, i⟩ ∧
+        rshRequest none cfg.luser ls[i].user (joinCmd argv) =
+          rshRequest none cfg.luser (hostInfo cfg ((awords items).map AWord.toWord) T[i]).2 (joinCmd argv) := by
+  intro T
+  refine ⟨?_, Opt.Exclude.cliWords_correct xc hD1 hD17 hD19 xenv _ hd, ?_⟩
+  · intro a ha
+    rw [splitWord_eq_parse, hsplit a ha]
+    rfl
+  · intro ls hrun
+    have hls := run_eq_spec_reexpand cfg _ T ls hrun
+    subst hls
+    refine ⟨by simp [expectedLines], ?_⟩
+    intro i hi
+    obtain ⟨hi', hg⟩ := expectedLines_get cfg ((awords items).map AWord.toWord) T i hi
+    exact ⟨hi', hg, by rw [hg]⟩
+
+/-- rank is counted AFTER exclusion: `-w u1@n[1-3] -x n2` contacts n1 with rank 0 and n3 with rank 1 -/
+example :
+    let w : Word := ⟨"u1@n[1-3]".toList, ["n1", "n2", "n3"].map String.toList, ["n1", "n2", "n3"].map String.toList⟩
+    let cfg : Cfg := ⟨["exec".toList], ["exec".toList], none, none, none, "me".toList⟩
+    (match runRe cfg [w] (["n1", "n3"].map String.toList) with
+     | .lines ls => ls.map (fun l => (String.ofList l.host, String.ofList l.user, l.rank)) | .fatal => []) =
+      [("n1", "u1", 0), ("n3", "u1", 1)] := by
+  decide
+
 /-! ## the ssh transport (src/modules/sshcmd.c; not built in the verified configuration) -/
 
 /-- ssh is started with argv = "ssh", then the template (PDSH_SSH_ARGS[_APPEND] split at blanks and
     completed with "-l%u" / "%h" as `fixup` says), then the command words -- every one of them with
     %h %u %n %% replaced and everything else byte for byte: quotes, backslashes (also trailing ones)
     and unknown %x sequences are not touched -/
-theorem ssh_argv_exact (e : Env) (append args dshpath : Option Ssh.Str) (luser : Ssh.Str) (pcp : Bool)
+theorem ssh_argv_exact (esc : Bool) (e : Env) (append args dshpath : Option Ssh.Str) (luser : Ssh.Str) (pcp : Bool)
     (words : List Ssh.Str) (cmd tail : Ssh.Str)
-    (hn : ∀ a ∈ Ssh.sshArgv append args dshpath luser e.user pcp words cmd, nul ∉ a) :
-    Ssh.sshCall repaired e append args dshpath luser pcp words cmd tail =
-      some ("ssh".toList :: (Ssh.sshArgv append args dshpath luser e.user pcp words cmd).map (expected e)) := by
+    (hn : ∀ a ∈ Ssh.sshArgv esc append args dshpath luser e.user pcp words cmd, nul ∉ a) :
+    Ssh.sshCall repaired esc e append args dshpath luser pcp words cmd tail =
+      some ("ssh".toList :: (Ssh.sshArgv esc append args dshpath luser e.user pcp words cmd).map (expected e)) := by
   obtain ⟨l, hl, hv, _⟩ := argv_length_preserved e "ssh".toList _ tail hn
   simp only [Ssh.sshCall, hl, Option.map_some, hv, expectedArgv]
 
 /-- ... hence command words without '%' reach ssh verbatim, whatever else they contain -/
 theorem ssh_command_verbatim (e : Env) (append args dshpath : Option Ssh.Str) (luser : Ssh.Str)
     (w0 : Ssh.Str) (rest : List Ssh.Str) (cmd : Ssh.Str) (hp : ∀ w ∈ w0 :: rest, '%' ∉ w) :
-    (Ssh.sshArgv append args dshpath luser e.user false (w0 :: rest) cmd).map (expected e) =
+    (Ssh.sshArgv false append args dshpath luser e.user false (w0 :: rest) cmd).map (expected e) =
       (Ssh.fixup (Ssh.template append args dshpath) (luser != e.user)).map (expected e) ++ (w0 :: rest) := by
   have : (w0 :: rest).map (expected e) = w0 :: rest := by
     have gen : ∀ (l : List Ssh.Str), (∀ w ∈ l, '%' ∉ w) → l.map (expected e) = l := by
@@ -633,7 +709,35 @@ theorem ssh_command_verbatim (e : Env) (append args dshpath : Option Ssh.Str) (l
         simp only [List.map_cons]
         rw [no_percent_id e a (h a (by simp)), ih (fun w hw => h w (by simp [hw]))]
     exact gen _ hp
-  simp only [Ssh.sshArgv, Bool.false_or, List.isEmpty_cons, Bool.false_eq_true, if_false, List.map_append, this]
+  simp only [Ssh.sshArgv, Bool.false_or, List.isEmpty_cons, Bool.false_eq_true, if_false, List.map_append,
+    List.map_map, Function.comp_def, List.map_id', this]
+
+/-- doubling the '%' is the inverse of the formatting, for every string and every (host, user, rank) -/
+theorem expected_escapePct (e : Env) (w : Ssh.Str) : expected e (Ssh.escapePct w) = w := by
+  induction w with
+  | nil => simp [Ssh.escapePct, expected_nil]
+  | cons c rest ih =>
+    by_cases hc : c = '%'
+    · subst hc
+      simp only [Ssh.escapePct, if_true]
+      rw [expected_esc, ih]
+      simp [escTok, render]
+    · simp only [Ssh.escapePct, hc, if_false]
+      rw [expected_cons_lit e c _ hc, ih]
+
+/-- WITH findings/C09-sshpct.patch the command words reach ssh byte for byte -- `%h`, `%%`, a lone
+    trailing '%', quotes, backslashes, anything -- behind the expanded template -/
+theorem ssh_command_verbatim_repaired (e : Env) (append args dshpath : Option Ssh.Str) (luser : Ssh.Str)
+    (w0 : Ssh.Str) (rest : List Ssh.Str) (cmd : Ssh.Str) :
+    (Ssh.sshArgv true append args dshpath luser e.user false (w0 :: rest) cmd).map (expected e) =
+      (Ssh.fixup (Ssh.template append args dshpath) (luser != e.user)).map (expected e) ++ (w0 :: rest) := by
+  have gen : ∀ (l : List Ssh.Str), (l.map fun w => Ssh.escapePct w).map (expected e) = l := by
+    intro l
+    induction l with
+    | nil => rfl
+    | cons a r ih => simp only [List.map_cons, expected_escapePct, ih]
+  simp only [Ssh.sshArgv, Bool.false_or, List.isEmpty_cons, Bool.false_eq_true, if_false, if_true, List.map_append]
+  rw [gen]
 
 /-- the default template "-2 -a -x %h" for a remote user that differs from the local one -/
 theorem ssh_default_fixup :
